@@ -8,9 +8,10 @@ open Fastor Fastor.Expr Fastor.Reduce
 private def hashOne (x : Fp) : UInt64 := Fp.hash 0 x
 
 /-- observables shared by the vectorised reductions -/
-private def loopObs (n V : Nat) (us : List Nat) (scalarCfg : Bool := false) : String :=
+private def loopObs (n V : Nat) (us : List Nat) (scalarCfg : Bool := false) (U : Nat := 1) : String :=
   let steps := vecSteps n V us
   let tl := tailPos n V us
+  s!"DEPTH={depth n V U us} " ++
   -- with FASTOR_DONT_VECTORISE the "vector" is SIMDVector<T,simd_abi::scalar>: its loads are plain element reads
   if scalarCfg then
     s!"LV=0 NVL=0 LSEQ={hex 0} TAIL={hex (hashNats 0 (sortDedup (steps.map (·.2) ++ tl)))}"
@@ -48,9 +49,9 @@ def runReduce (kv : List (String × String)) : String := Id.run do
       let V := cfg.vsize sz n
       let (U, us) := normLadder a512
       let single := n ≤ U * V
-      return s!"route={if single then "norm1" else "normU"} V={V} VAL={hex (hashOne (norm2Tensor a512 term n V))} {loopObs n V (if single then [1] else us) sc} {rdAll}"
+      return s!"route={if single then "norm1" else "normU"} V={V} VAL={hex (hashOne (norm2Tensor a512 term n V))} {loopObs n V (if single then [1] else us) sc (if single then 1 else U)} {rdAll}"
     else
-      return s!"route=normE V={Vn} VAL={hex (hashOne (norm2Expr a512 term n Vn))} {loopObs n Vn (normLadder a512).2 sc} {rdAll}"
+      return s!"route=normE V={Vn} VAL={hex (hashOne (norm2Expr a512 term n Vn))} {loopObs n Vn (normLadder a512).2 sc (normLadder a512).1} {rdAll}"
   | "inner" =>
     let some fs := getS kv "F" | return "bad-op"
     let some f := parseExpr fs | return "bad-op"
@@ -58,7 +59,7 @@ def runReduce (kv : List (String × String)) : String := Id.run do
     let V := cfg.vsize sz n
     let single := n ≤ 4 * V
     let plainB := match f with | .t _ => true | _ => false
-    let obs := if plain && plainB then loopObs n V (if single then [1] else [4, 2, 1]) sc else ""
+    let obs := if plain && plainB then loopObs n V (if single then [1] else [4, 2, 1]) sc (if single then 1 else 4) else s!"DEPTH={depth n V (if single then 1 else 4) (if single then [1] else [4, 2, 1])}"
     return s!"route={if single then "dc1" else "dc4"} V={V} VAL={hex (hashOne (Reduce.inner term termB n V))} {obs} {rdAll}"
   | "trace" =>
     -- n is the matrix extent M
